@@ -158,6 +158,15 @@ def ss_with_fixed_volume_gas(case):
     return False
 
 
+# other documented solver settings: same chemistry, another Newton path
+KNOBS_VARIANTS = ["",                                                   # engine defaults (step sizes 100 / 10)
+                  "\n -step_size 3\n -pe_step_size 2",
+                  "\n -step_size 30\n -pe_step_size 7",
+                  "\n -step_size 10\n -pe_step_size 5\n -delay_mass_water true",
+                  "\n -step_size 10\n -pe_step_size 5\n -tolerance 1e-16",
+                  "\n -step_size 2\n -pe_step_size 1.5\n -diagonal_scale true"]
+
+
 def knobs_text(case):
     """KNOBS block of a case: convergence tolerance 1e-12 (DESIGN 4.2) and 300 iterations, except that cases prone to the
     known finding above keep the default 100 iterations (exclusion by construction; the combination itself stays in the
@@ -173,9 +182,9 @@ def knobs_text(case):
     # inventory).  Which input does this cannot be told beforehand (about 1 case in 4000), so every generated input damps
     # the Newton step with the documented options -step_size 10 / -pe_step_size 5 (what the engine's own first retry
     # uses).  `knobs_default_step_size` in a case keeps the defaults (used only by known-finding replays).
-    # `knobs_step_size: [s, p]` chooses other values (C02 uses it for its second run of a case, see c02.check_case).
-    if case.get("knobs_step_size"):
-        txt += "\n -step_size %s\n -pe_step_size %s" % tuple(fmt(float(v)) for v in case["knobs_step_size"])
+    # `knobs_variant: i` chooses KNOBS_VARIANTS[i] instead (C02 uses it for its second run of a case, see c02.check_case).
+    if case.get("knobs_variant") is not None:
+        txt += KNOBS_VARIANTS[int(case["knobs_variant"])]
     elif not case.get("knobs_default_step_size"):
         txt += "\n -step_size 10\n -pe_step_size 5"
     return txt
